@@ -304,6 +304,47 @@ pub mod conv {
         core::mem::forget(r);
         assert!(e);
     }
+    // the heap form of exactly eight bytes (loop-free over all 2^64 byte strings of that shape: complete)
+    #[kani::proof] #[kani::stub(alloc::fmt::format, super::stub_format)]
+    #[kani::stub(std::backtrace::Backtrace::capture, super::stub_backtrace)]
+    pub fn i64_heap8_is_be() {
+        let a: [u8; 8] = kani::any();
+        let h = Hex::Vector(a.to_vec());
+        let r = h.to_i64();
+        let good = match &r { Ok(i) => *i == i64::from_be_bytes(a), Err(_) => false };
+        core::mem::forget(r);
+        assert!(good);
+    }
+    #[kani::proof] #[kani::stub(alloc::fmt::format, super::stub_format)]
+    #[kani::stub(std::backtrace::Backtrace::capture, super::stub_backtrace)]
+    pub fn f64_heap8_is_be() {
+        let a: [u8; 8] = kani::any();
+        let h = Hex::Vector(a.to_vec());
+        let r = h.to_f64();
+        let good = match &r { Ok(f) => f.to_bits() == u64::from_be_bytes(a), Err(_) => false };
+        core::mem::forget(r);
+        assert!(good);
+    }
+    // nine bytes (the shortest string only the heap form can hold) are refused (complete for that shape)
+    #[kani::proof] #[kani::stub(alloc::fmt::format, super::stub_format)]
+    #[kani::stub(std::backtrace::Backtrace::capture, super::stub_backtrace)]
+    pub fn i64_f64_heap9_is_err() {
+        let a: [u8; 9] = kani::any();
+        let h = Hex::Vector(a.to_vec());
+        let r = h.to_i64(); let e = r.is_err(); core::mem::forget(r);
+        assert!(e);
+        let r2 = h.to_f64(); let e2 = r2.is_err(); core::mem::forget(r2);
+        assert!(e2);
+    }
+    #[kani::proof] #[kani::stub(alloc::fmt::format, super::stub_format)]
+    #[kani::stub(std::backtrace::Backtrace::capture, super::stub_backtrace)]
+    pub fn v_f64_heap() {
+        let h = any_heap();
+        let r = h.to_f64();
+        let ok = r.is_ok();
+        core::mem::forget(r);
+        assert!(ok == (h.bytes().len() == 8));
+    }
     #[kani::proof] #[kani::stub(alloc::fmt::format, super::stub_format)]
     #[kani::stub(std::backtrace::Backtrace::capture, super::stub_backtrace)]
     pub fn v_i64_heap() {
@@ -411,6 +452,41 @@ pub mod meth {
         assert!(h.byte_at(k) == h.bytes()[k]);
         let t = h.tail(k);
         same(t.bytes(), &h.bytes()[k..]);
+    }
+    // tail(len) is the empty value (no panic); tail / byte_at beyond the end panic as the slice operation does
+    #[kani::proof]
+    pub fn tail_full_inline() {
+        let h = any_inline();
+        let t = h.tail(h.len());
+        assert!(t.len() == 0 && t.bytes().len() == 0);
+    }
+    #[kani::proof] #[kani::should_panic]
+    pub fn tail_inline_oob() {
+        let h = any_inline(); let k: usize = kani::any();
+        kani::assume(!ok_from(k, h.bytes().len()));
+        let _t = h.tail(k);
+        kani::cover!(true, "returned-normally");
+    }
+    #[kani::proof] #[kani::should_panic]
+    pub fn byte_at_inline_oob() {
+        let h = any_inline(); let k: usize = kani::any();
+        kani::assume(!(k < h.bytes().len()));
+        let _b = h.byte_at(k);
+        kani::cover!(true, "returned-normally");
+    }
+    #[kani::proof] #[kani::should_panic]
+    pub fn v_tail_heap_oob() {
+        let h = any_heap(); let k: usize = kani::any();
+        kani::assume(!ok_from(k, h.bytes().len()));
+        let _t = h.tail(k);
+        kani::cover!(true, "returned-normally");
+    }
+    #[kani::proof] #[kani::should_panic]
+    pub fn v_byte_at_heap_oob() {
+        let h = any_heap(); let k: usize = kani::any();
+        kani::assume(!(k < h.bytes().len()));
+        let _b = h.byte_at(k);
+        kani::cover!(true, "returned-normally");
     }
     #[kani::proof]
     pub fn to_vec_len_inline() {
